@@ -13,7 +13,11 @@ fn item(b: &[u8], p: usize) -> Option<usize> {
         25 => (u16::from_be_bytes(b.get(p + 1..p + 3)?.try_into().ok()?) as u64, p + 3),
         26 => (u32::from_be_bytes(b.get(p + 1..p + 5)?.try_into().ok()?) as u64, p + 5),
         27 => (u64::from_be_bytes(b.get(p + 1..p + 9)?.try_into().ok()?), p + 9),
-        _ => return None,      // no indefinite lengths in messages written by these encoders
+        31 if major == 4 => {   // indefinite-length array (SharePeers writes one): items up to the break
+            let mut q = p + 1;
+            loop { if *b.get(q)? == 0xff { return Some(q + 1); } q = item(b, q)?; }
+        }
+        _ => return None,
     };
     match major {
         0 | 1 | 7 => Some(q),
@@ -61,6 +65,32 @@ fn main() {
             check("network2 keepalive", &keepalive::Message::KeepAlive(c), |a, b| format!("{a:?}") == format!("{b:?}"), &mut n);
             check("network2 keepalive", &keepalive::Message::ResponseKeepAlive(c), |a, b| format!("{a:?}") == format!("{b:?}"), &mut n); }
         check("network2 keepalive", &keepalive::Message::Done, |a, b| format!("{a:?}") == format!("{b:?}"), &mut n);
+    }
+    {   // peer sharing (both stacks): addresses and messages
+        use std::net::{Ipv4Addr, Ipv6Addr};
+        let v4s = [Ipv4Addr::new(0, 0, 0, 0), Ipv4Addr::new(127, 0, 0, 1), Ipv4Addr::new(255, 255, 255, 255)];
+        let v6s = [Ipv6Addr::from_bits(0), Ipv6Addr::new(0, 0, 0, 0, 0, 0xffff, 0xc00a, 0x2ff), Ipv6Addr::from_bits(u128::MAX), Ipv6Addr::new(0x2001, 0xdb8, 1, 2, 3, 4, 5, 6)];
+        let ports = [0u32, 1, 3001, 65535];
+        {
+            use pallas_network::miniprotocols::peersharing::{Message, PeerAddress};
+            let mut addrs = Vec::new();
+            for p in ports { for a in v4s { addrs.push(PeerAddress::V4(a, p)); } for a in v6s { addrs.push(PeerAddress::V6(a, p)); } }
+            for a in &addrs { check("network PeerAddress", a, |x, y| x == y, &mut n); }
+            let same = |a: &Message, b: &Message| format!("{a:?}") == format!("{b:?}");
+            for k in [0u8, 1, 23, 24, 255] { check("network peersharing", &Message::ShareRequest(k), same, &mut n); }
+            check("network peersharing", &Message::Done, same, &mut n);
+            for len in [0usize, 1, 2, 5] { check("network peersharing", &Message::SharePeers(addrs.iter().step_by(3).take(len).cloned().collect()), same, &mut n); }
+        }
+        {
+            use pallas_network2::protocol::peersharing::{Message, PeerAddress};
+            let mut addrs = Vec::new();
+            for p in ports { let p = p as u16; for a in v4s { addrs.push(PeerAddress::V4(a, p)); } for a in v6s { addrs.push(PeerAddress::V6(a, p)); } }
+            for a in &addrs { check("network2 PeerAddress", a, |x, y| x == y, &mut n); }
+            let same = |a: &Message, b: &Message| format!("{a:?}") == format!("{b:?}");
+            for k in [0u8, 1, 23, 24, 255] { check("network2 peersharing", &Message::ShareRequest(k), same, &mut n); }
+            check("network2 peersharing", &Message::Done, same, &mut n);
+            for len in [0usize, 1, 2, 5] { check("network2 peersharing", &Message::SharePeers(addrs.iter().step_by(3).take(len).cloned().collect()), same, &mut n); }
+        }
     }
     println!("checked {n} messages: one well-formed item each, decode(encode(m)) == m");
 }
